@@ -342,9 +342,13 @@ pub fn gen_cli_case(t: &mut Tape) -> CliCase {
 
 impl CliCase {
     fn with_multiline(mut self, t: &mut Tape) -> CliCase {
-        if t.chance(1, 6) {
+        if t.chance(1, 5) {
             self.multiline = true;
-            self.pattern = t.pick(ML_PATTERNS).to_string();
+            // half of the time -U comes with the ordinary pattern, which cannot match a terminator: the
+            // searcher is configured for multi-line search but runs its line-by-line strategies
+            if t.chance(1, 2) {
+                self.pattern = t.pick(ML_PATTERNS).to_string();
+            }
         }
         self
     }
@@ -558,6 +562,7 @@ pub fn check_cli(case: &CliCase) -> Verdict {
     info.class_if(case.after + case.before > 0 && !case.passthru, "context");
     info.class_if(case.passthru, "passthru");
     info.class_if(case.multiline, "multiline");
+    info.class_if(case.multiline && !ML_PATTERNS.contains(&case.pattern.as_str()), "multiline_requested_with_single_line_pattern");
     info.class_if(!p.records.is_empty() && cut, "cut_after_lines_printed");
     Verdict::Pass(info)
 }
